@@ -9317,9 +9317,18 @@ class SVG(Group):
                         if s is None:
                             # s was not established we continue without it.
                             continue
-                    s.render(ppi=ppi, width=width, height=height)
-                    if reify:
-                        s.reify()
+                    try:
+                        s.render(ppi=ppi, width=width, height=height)
+                        if reify:
+                            s.reify()
+                    except (ValueError, TypeError, ArithmeticError) as e:
+                        # E.g. a length in units that cannot be resolved here (em without a font size).
+                        if on_error == "ignore":
+                            continue
+                        elif on_error == "raise":
+                            raise e
+                        else:  # "stop"
+                            return root
                     if s.is_degenerate():
                         continue
                     if context is not None:
